@@ -3,7 +3,7 @@
 From Coq Require Import QArith Qcanon List String Bool.
 Import ListNotations.
 From S2 Require Import Base.Num Base.Arr Model.Expr Model.Struct Model.Rates Model.Program
-     Spec.RatesSpec Proofs.NumQc Proofs.WeightProofs Proofs.RatesProofs Props.Examples.
+     Spec.RatesSpec Proofs.NumQc Proofs.WeightProofs Proofs.RatesProofs Proofs.CleanProofs Props.Examples.
 
 (* every flow's rate is the documented law of its kind, with the weight = parameter with its
    adjustments applied, evaluated at this time and the cleaned state - for every model the
@@ -37,6 +37,21 @@ Theorem C01_weights :
     nth i (flow_weights O p t x fl) (f0 O) = weight_spec O p t x (nth i fl dflow).
 Proof. exact flow_weights_nth. Qed.
 Print Assumptions C01_weights.
+
+(* negative compartment values count as zero: flow and compartment rates at a state are those at the state with its
+   negative entries replaced by zero (and the i-th entry of that state is 0 or the entry itself) - every model,
+   backend, parameter environment, time and state *)
+Theorem C01_negative_counts_as_zero :
+  forall (O : NumOps) (T : NumTheory O) (m : model) (b : backend) (p : env O) (t : F O) (x0 : list (F O)),
+    get_flow_rates O m b p t x0 = get_flow_rates O m b p t (vclean O x0)
+    /\ get_comp_rates O m b p t x0 = get_comp_rates O m b p t (vclean O x0)
+    /\ forall i, (i < List.length x0)%nat ->
+         nth i (vclean O x0) (f0 O) = if fltb O (nth i x0 (f0 O)) (f0 O) then f0 O else nth i x0 (f0 O).
+Proof.
+  intros O T m b p t x0.
+  exact (conj (flow_rates_clean O T m b p t x0) (conj (comp_rates_clean O T m b p t x0) (vclean_nth O x0))).
+Qed.
+Print Assumptions C01_negative_counts_as_zero.
 
 (* non-vacuity: the hypothesis is met by a concrete stratified model, and the theorem's two
    sides compute to the same non-trivial vector there *)
